@@ -74,6 +74,53 @@ theorem indirect_params_iff_spec (p : Nat) (hp : p = 4 ∨ p = 8) (v : Variant) 
     simp [wasmSignature, HostCall.paramsIndirect, HostCall.maxFlatParams, maxFlatParams, hl] <;>
     split <;> simp_all
 
+/-! ## `FlagsLift` as rendered by the Rust backend -/
+
+/-- **Current rendering (`op as u32 as REPR`, /repo 1288bae): the spec's, full statement.**  For every
+flags type the Rust backend supports (up to 128 members) and all core words, the flags value the
+generated code builds is the canonical ABI's `flagsOfWords`. -/
+theorem rust_flags_lift (n : Nat) (hn : n ≤ 128) (ws : List Nat) :
+    flagsLiftRust false n ws = Spec.flagsOfWords n ws := by
+  simp only [flagsLiftRust, Spec.flagsOfWords]
+  apply List.map_congr_left
+  intro i hi
+  have hi' : i < n := by simpa using hi
+  have hb := flagsReprBits_ge n hn
+  rw [rustFlagsBits_testBit _ ws 0 i (by omega), Nat.testBit_eq_decide_div_mod_eq]
+  simp only [Nat.zero_le, decide_true, Bool.true_and, Nat.sub_zero]
+  cases h : decide (ws.getD (i / 32) 0 / 2 ^ (i % 32) % 2 = 1) <;> simp_all
+
+/-- The rendering before 1288bae (`op as REPR`, finding `flags-lift-sign-extends-word`, repaired) did
+not satisfy that statement: 33 flags, host sends only flag 31 (`[0x8000_0000, 0]`): `w0 as u64`
+sign-extends and flag 32 arrives set.  Kept so that a regression to that rendering is recognised. -/
+theorem rust_flags_lift_signext_full_false :
+    ¬ ∀ (n : Nat) (ws : List Nat), ws.length = (flagsRepr n).count → (∀ w ∈ ws, w < 2 ^ 32) →
+        flagsLiftRust true n ws = Spec.flagsOfWords n ws := by
+  intro h
+  have := h 33 [2 ^ 31, 0] (by decide) (by decide)
+  revert this
+  decide
+
+/-- … it was right only for at most 32 members (one core word). -/
+theorem rust_flags_lift_signext_partial (n w : Nat) (hn : n ≤ 32) :
+    flagsLiftRust true n [w] = Spec.flagsOfWords n [w] := by
+  have hb : flagsReprBits n ≤ 32 := by
+    simp only [flagsReprBits]; split <;> (try split) <;> (try split) <;> omega
+  have hnb : n ≤ flagsReprBits n := by
+    simp only [flagsReprBits]; split <;> (try split) <;> (try split) <;> omega
+  simp only [flagsLiftRust, Spec.flagsOfWords, rustFlagsBits, castI32_small _ _ hb, Nat.mul_zero, Nat.pow_zero,
+    Nat.mul_one, Nat.mod_mod, Nat.or_zero, ↓reduceIte]
+  apply List.map_congr_left
+  intro i hi
+  have hi' : i < n := by simpa using hi
+  have h32 : i % 32 = i := Nat.mod_eq_of_lt (by omega)
+  have hd : i / 32 = 0 := Nat.div_eq_of_lt (by omega)
+  simp only [hd, List.getD_cons_zero, h32, Nat.testBit_mod_two_pow]
+  have : i < flagsReprBits n := by omega
+  rw [Nat.testBit_eq_decide_div_mod_eq]
+  simp only [this, decide_true, Bool.true_and]
+  cases h : decide (w / 2 ^ i % 2 = 1) <;> simp_all
+
 /-! ## Round trips as corollaries of the generic theorems (named hypotheses where not yet proved) -/
 
 /-- C01, lifting direction, as a statement (not yet a theorem for all types): whatever the spec lifts
